@@ -52,6 +52,11 @@ def call_driver(case, api):
         expr = "__r[%s]" % names[0]
     elif m == ".length":
         expr = "__r.length"
+    elif m in ("replace_fn", "replaceAll_fn"):
+        # function replacer supplied by the driver: "<" matched "|" position "|" string ">" (spec: JsString!FnReplacement)
+        expr = ("__r.%s(%s, function (mt, pos, str) { return '<' + mt + '|' + pos + '|' + str + '>' })" % (m[:-3], names[0] if names else ""))
+        if not names:
+            expr = "__r.%s()" % m[:-3]
     elif m.startswith("fn:"):          # plain function call, receiver ignored: fn:String, fn:String.fromCharCode
         expr = "%s(%s)" % (m[3:], ", ".join(names))
     else:
